@@ -60,9 +60,22 @@ class Report:
     def note(self, s):
         self.notes.append(s)
 
+    def undecided_anchor(self, rule, key, detail='', where=''):
+        """the whole anchor function could not be put into the form a rule reads (a loop where the rule enumerates paths,
+        too many paths, ...): its obligations are undecided as a block.  The next floor() call does not mistake the
+        missing instances for a vanished anchor"""
+        self._anchor_undecided = getattr(self, '_anchor_undecided', 0) + 1
+        return self.ob(rule, key, UNDECIDED, detail, where)
+
     def floor(self, what, count, confirmed):
         """fail closed when a rule's instance count is zero or below half of what was confirmed by hand"""
         ok = count > 0 and count * 2 >= confirmed
+        blocked = getattr(self, '_anchor_undecided', 0)
+        if not ok and blocked:
+            self._anchor_undecided = blocked - 1
+            self.floors.append({'what': what, 'count': count, 'confirmed_at_design_time': confirmed, 'ok': True,
+                                'note': 'short of the confirmed count because %d anchor(s) are undecided as a block (present, but not in the form the rule reads)' % blocked})
+            return True
         self.floors.append({'what': what, 'count': count, 'confirmed_at_design_time': confirmed, 'ok': ok})
         if not ok:
             self.ob('FLOOR', what, VIOLATION,
